@@ -350,4 +350,132 @@ Proof.
   intros Hlt. apply (Hquiet Hlt).
 Qed.
 
+(* ================================================================== *)
+(* 7.3 convergence of f's measure along the star's rounds              *)
+(* ================================================================== *)
+
+(* n rounds, seen from f: whatever the other followers answered *)
+Inductive vrounds : nat -> raft -> raft -> raft -> raft -> Prop :=
+| vr_O L F : vrounds O L F L F
+| vr_S n L F pre post L1 F1 L' F' :
+    Forall other_ok pre -> Forall other_ok post ->
+    view_round L F pre post = Ok (L1, F1) -> vrounds n L1 F1 L' F' ->
+    vrounds (S n) L F L' F'.
+
+Lemma vrounds_split k : forall j L F L' F',
+  vrounds (k + j) L F L' F' -> exists L1 F1, vrounds k L F L1 F1 /\ vrounds j L1 F1 L' F'.
+Proof.
+  induction k as [|k IH]; intros j L F L' F' H; cbn [Nat.add] in H.
+  - exists L, F. split; [constructor|exact H].
+  - inversion H as [|n0 L0 F0 pre post L1 F1 L2 F2 Hp Hq Hv Hr]; subst n0 L0 F0 L2 F2.
+    destruct (IH _ _ _ _ _ Hr) as (La & Fa & A & B).
+    exists La, Fa. split; [eapply vr_S with (pre := pre) (post := post); eassumption|exact B].
+Qed.
+
+Lemma vrounds_mono n : forall Hb a L F pr L' F',
+  PairInv Hb a L F -> get_pr L f = Some pr -> vrounds n L F L' F' ->
+  exists a' pr', a <= a' /\ PairInv Hb a' L' F' /\ get_pr L' f = Some pr' /\
+    matched pr <= matched pr' /\ mu pr' <= mu pr.
+Proof.
+  induction n as [|n IH]; intros Hb a L F pr L' F' HI Hg H.
+  - inversion H; subst L' F'. exists a, pr. split; [lia|]. split; [exact HI|]. split; [exact Hg|]. lia.
+  - inversion H as [|n0 L0 F0 pre post L1 F1 L2 F2 Hp Hq Hv Hr]; subst n0 L0 F0 L2 F2.
+    destruct (view_round_inv Hb a L F pre post L1 F1 pr HI Hg Hp Hq Hv)
+      as (a1 & pr1 & La & HI1 & Hg1 & Hm1 & Hmu1 & _).
+    destruct (IH Hb a1 L1 F1 pr1 L' F' HI1 Hg1 Hr) as (a2 & pr2 & La2 & HI2 & Hg2 & Hm2 & Hmu2).
+    exists a2, pr2. split; [lia|]. split; [exact HI2|]. split; [exact Hg2|].
+    pose proof (mu_le_of_step LL T l f lo Hlo HT Hlf _ _ Hmu1). lia.
+Qed.
+
+Lemma v_progress_after_fire Hb a L F pr L' F' :
+  PairInv Hb a L F -> get_pr L f = Some pr -> matched pr < ll_last LL ->
+  Hb <= r_heartbeat_elapsed L + 1 ->
+  vrounds 3 L F L' F' ->
+  exists a' pr', PairInv Hb a' L' F' /\ get_pr L' f = Some pr' /\ mu pr' < mu pr.
+Proof.
+  intros HI Hg Hlt Hfire H.
+  inversion H as [|n0 L0 F0 pre1 post1 L1 F1 L9 F9 Hp1 Hq1 Hv1 Hr1]; subst n0 L0 F0 L9 F9.
+  inversion Hr1 as [|n0 L0 F0 pre2 post2 L2 F2 L9 F9 Hp2 Hq2 Hv2 Hr2]; subst n0 L0 F0 L9 F9.
+  inversion Hr2 as [|n0 L0 F0 pre3 post3 L3 F3 L9 F9 Hp3 Hq3 Hv3 Hr3]; subst n0 L0 F0 L9 F9.
+  inversion Hr3; subst L' F'.
+  destruct (view_round_inv Hb a L F _ _ L1 F1 pr HI Hg Hp1 Hq1 Hv1)
+    as (a1 & pr1 & _ & HI1 & Hg1 & Hm1 & Hmu1 & _ & _ & Hqq1 & _).
+  pose proof (mu_le_of_step LL T l f lo Hlo HT Hlf _ _ Hmu1) as Hle1.
+  destruct (view_round_inv Hb a1 L1 F1 _ _ L2 F2 pr1 HI1 Hg1 Hp2 Hq2 Hv2)
+    as (a2 & pr2 & _ & HI2 & Hg2 & Hm2 & Hmu2 & _ & Hhb2 & _).
+  pose proof (mu_le_of_step LL T l f lo Hlo HT Hlf _ _ Hmu2) as Hle2.
+  destruct (view_round_inv Hb a2 L2 F2 _ _ L3 F3 pr2 HI2 Hg2 Hp3 Hq3 Hv3)
+    as (a3 & pr3 & _ & HI3 & Hg3 & Hm3 & Hmu3 & Hobl3 & _).
+  pose proof (mu_le_of_step LL T l f lo Hlo HT Hlf _ _ Hmu3) as Hle3.
+  exists a3, pr3. split; [exact HI3|]. split; [exact Hg3|].
+  destruct (PairInv_matched_le _ _ _ _ _ _ _ _ _ _ _ _ HI1 Hg1) as [HP1 Ha1].
+  destruct (N.lt_ge_cases (matched pr1) (ll_last LL)) as [Hlt1|Hge1].
+  - destruct (Hhb2 (Hqq1 Hfire) Hlt1) as [Hd|Hob]; [lia|].
+    specialize (Hobl3 Hob). lia.
+  - pose proof (mu_lt_matched LL T l f lo Hlo HT Hlf a1 pr pr1 HP1 Ha1 ltac:(lia)). lia.
+Qed.
+
+Lemma v_progress_within d : forall Hb a L F pr L' F',
+  PairInv Hb a L F -> get_pr L f = Some pr -> matched pr < ll_last LL ->
+  Hb <= r_heartbeat_elapsed L + 1 + N.of_nat d ->
+  vrounds (d + 3) L F L' F' ->
+  exists a' pr', PairInv Hb a' L' F' /\ get_pr L' f = Some pr' /\ mu pr' < mu pr.
+Proof.
+  induction d as [|d IH]; intros Hb a L F pr L' F' HI Hg Hlt Hd H.
+  - apply (v_progress_after_fire Hb a L F pr L' F' HI Hg Hlt); [cbn in Hd; lia|exact H].
+  - destruct (N.lt_ge_cases (r_heartbeat_elapsed L + 1) Hb) as [Hq|Hf].
+    + change (S d + 3)%nat with (S (d + 3)) in H.
+      inversion H as [|n0 L0 F0 pre post L1 F1 L9 F9 Hp1 Hq1 Hv1 Hr1]; subst n0 L0 F0 L9 F9.
+      destruct (view_round_inv Hb a L F _ _ L1 F1 pr HI Hg Hp1 Hq1 Hv1)
+        as (a1 & pr1 & _ & HI1 & Hg1 & Hm1 & Hmu1 & _ & _ & _ & Hh1).
+      pose proof (mu_le_of_step LL T l f lo Hlo HT Hlf _ _ Hmu1) as Hle1. specialize (Hh1 Hq).
+      destruct (PairInv_matched_le _ _ _ _ _ _ _ _ _ _ _ _ HI1 Hg1) as [HP1 Ha1].
+      destruct (N.lt_ge_cases (matched pr1) (ll_last LL)) as [Hlt1|Hge1].
+      * destruct (IH Hb a1 L1 F1 pr1 L' F' HI1 Hg1 Hlt1 ltac:(lia) Hr1) as (a' & pr' & A & B & C0).
+        exists a', pr'. split; [exact A|]. split; [exact B|]. lia.
+      * destruct (vrounds_mono _ Hb a1 L1 F1 pr1 L' F' HI1 Hg1 Hr1) as (a' & pr' & _ & A & B & _ & C0).
+        exists a', pr'. split; [exact A|]. split; [exact B|].
+        pose proof (mu_lt_matched LL T l f lo Hlo HT Hlf a1 pr pr1 HP1 Ha1 ltac:(lia)). lia.
+    + replace (S d + 3)%nat with (3 + S d)%nat in H by lia.
+      destruct (vrounds_split _ _ _ _ _ _ H) as (L1 & F1 & H3 & Hrest).
+      destruct (v_progress_after_fire Hb a L F pr L1 F1 HI Hg Hlt Hf H3) as (a1 & pr1 & HI1 & Hg1 & Hmu1).
+      destruct (vrounds_mono _ Hb a1 L1 F1 pr1 L' F' HI1 Hg1 Hrest) as (a' & pr' & _ & A & B & _ & C0).
+      exists a', pr'. split; [exact A|]. split; [exact B|]. lia.
+Qed.
+
+Lemma v_converged_stays n Hb a L F pr L' F' :
+  PairInv Hb a L F -> get_pr L f = Some pr -> matched pr = ll_last LL ->
+  vrounds n L F L' F' ->
+  exists a' pr', PairInv Hb a' L' F' /\ get_pr L' f = Some pr' /\ matched pr' = ll_last LL.
+Proof.
+  intros HI Hg Hm H.
+  destruct (vrounds_mono n Hb a L F pr L' F' HI Hg H) as (a' & pr' & _ & A & B & C0 & _).
+  exists a', pr'. split; [exact A|]. split; [exact B|].
+  destruct (PairInv_matched_le _ _ _ _ _ _ _ _ _ _ _ _ A B) as [HP' Ha']. pose proof (pi_b _ _ _ _ HP'). lia.
+Qed.
+
+Lemma v_converges_measure n : forall Hb a L F pr N L' F',
+  PairInv Hb a L F -> get_pr L f = Some pr -> 1 <= Hb -> mu pr <= N.of_nat n ->
+  (N.to_nat (Hb + 2) * n <= N)%nat ->
+  vrounds N L F L' F' ->
+  exists a' pr', PairInv Hb a' L' F' /\ get_pr L' f = Some pr' /\ matched pr' = ll_last LL.
+Proof.
+  induction n as [|n IH]; intros Hb a L F pr N L' F' HI Hg HH Hmu HN H.
+  - destruct (PairInv_matched_le _ _ _ _ _ _ _ _ _ _ _ _ HI Hg) as [HP _].
+    pose proof (mu_pos LL T l f lo Hlo HT Hlf _ _ HP). lia.
+  - destruct (PairInv_matched_le _ _ _ _ _ _ _ _ _ _ _ _ HI Hg) as [HP Ha].
+    destruct (N.eq_dec (matched pr) (ll_last LL)) as [Hm|Hm].
+    { eapply v_converged_stays; eassumption. }
+    assert (Hlt : matched pr < ll_last LL) by (pose proof (pi_b _ _ _ _ HP); lia).
+    set (d := N.to_nat (Hb - 1 - r_heartbeat_elapsed L)).
+    assert (Hk : (d + 3 <= N.to_nat (Hb + 2))%nat) by (subst d; lia).
+    assert (HN' : (d + 3 <= N)%nat) by lia.
+    replace N with ((d + 3) + (N - (d + 3)))%nat in H by lia.
+    destruct (vrounds_split _ _ _ _ _ _ H) as (L1 & F1 & Hd & Hrest).
+    destruct (v_progress_within d Hb a L F pr L1 F1 HI Hg Hlt ltac:(subst d; lia) Hd)
+      as (a1 & pr1 & HI1 & Hg1 & Hmu1).
+    apply (IH Hb a1 L1 F1 pr1 (N - (d + 3))%nat L' F' HI1 Hg1 HH); [lia| |exact Hrest].
+    nia.
+Qed.
+
 End View.
